@@ -188,6 +188,21 @@ func init() {
 	})
 }
 
+func init() {
+	props = append(props, prop{
+		ID: "C04", Title: "exactly-once, in-order delivery on resume", Level: "exploration",
+		LevelText:  "The real api.getMessages runs as a scheduler-controlled goroutine against vsync-built output streams of 1-3 nodes that hold generated prefixes of one output history, while a feeder goroutine per connection applies further batches; clients consume a generated number of messages (also inside a multi-reply batch), disconnect, and resume with the id of the last message on the same or another node (possibly one that has not applied that batch yet, or has compacted older batches). The concatenation of everything consumed must equal the session's message sequence.",
+		LevelNote:  "The consumer applies the handler's one-line recipient filter; JSON streaming and supersede logic of the HTTP handler are exercised by the in-process node checks. The 250 ms back-off is real time and never used as a correctness signal.",
+		Technique:  "property-based testing with a controlled scheduler (rapid-drawn interleavings) and a sequence oracle over the concatenated reads",
+		DesignRef:  "4/C04",
+		Rule:       "case = 1-7 batches (1-4 replies, recipient subsets of 3 sessions), 1-3 nodes with generated applied prefixes, 1-4 connections (node, batches applied meanwhile, messages consumed before the disconnect, compaction before reconnect) + one schedule per connection; non-trivial = >=2 connections and a reconnect inside a multi-reply batch or to a node that is behind the resume point; distinct = hash of case + schedules",
+		Assumptions: []string{"resume points are newer than the compaction horizon of the node", "the last connection stays open on a node that eventually applies every batch"},
+		Units: []unit{
+			{Name: "resume", Pkg: "internal/api", Harness: "api_vsync", Mode: "vsync", Run: "^TestVerifC04$", Rapid: true, Quick: 8000, Thorough: 160000, QuickTimeoutS: 600, ThoroughTimeoutS: 3000},
+		},
+	})
+}
+
 // notApplicable lists properties that are not claimed (yet), with the reason.
 var notApplicable = map[string]string{}
 
